@@ -423,6 +423,7 @@ func cmdRun(args []string) int {
 	pstr := fs.String("params", "", "k=v,k=v")
 	stubs := fs.String("stubs", "", "callee=stub;callee=stub")
 	noops := fs.String("noops", "", "callee;callee")
+	nolem := fs.Bool("nolemmas", false, "disable zzLemma")
 	rewrite := fs.String("rewrite", "", "native rewrite entries file.go:Recv.Method=stub;...")
 	fix := fs.String("fix", "", "replay.json whose vals make the run concrete")
 	uf := fs.Bool("uf", false, "floats as UF")
@@ -456,6 +457,7 @@ func cmdRun(args []string) int {
 			fixedVals = map[string]int64{}
 		}
 	}
+	lemmasOff = *nolem
 	if *rewrite != "" {
 		js.Rewrite = strings.Split(*rewrite, ";")
 	}
@@ -489,7 +491,7 @@ func cmdRun(args []string) int {
 			os.MkdirAll(*dump, 0755)
 			os.WriteFile(filepath.Join(*dump, fmt.Sprintf("q%03d.smt2", i)), []byte(q.Script+"(check-sat)\n"), 0644)
 		}
-		bad := (q.Kind != "reach" && q.Status != "unsat") || (q.Kind == "reach" && q.Status != "sat")
+		bad := (q.Kind != "reach" && q.Status != "unsat") || (q.Kind == "reach" && q.Status != "sat" && q.Status != "unsat")
 		if bad {
 			rc = 1
 			if q.Status == "sat" {
